@@ -1,1 +1,3 @@
+import RaftProps.C11
+import RaftProps.C12
 import RaftProps.C18
